@@ -340,6 +340,41 @@ def disable_races_peer_close_round():
     return obs
 
 
+def disable_from_callback_round():
+    """the application reacts to a received message by calling disable() - from the message_received callback, i.e. on the
+    protocol's dispatcher thread - over real loopback TCP.  KNOWN FINDING C09-disable-from-callback: it never returns."""
+    import secsgem.common.tcp_connection
+    secsgem.common.tcp_connection.TcpConnection.select_timeout = 0.02
+    port = common.own_port(7)
+    settings = secsgem.hsms.HsmsSettings(address="127.0.0.1", port=port, connect_mode=secsgem.hsms.HsmsConnectMode.PASSIVE, device_id=0)
+    proto = secsgem.hsms.HsmsProtocol(settings)
+    done = threading.Event()
+
+    def on_message(_data):
+        proto.disable()
+        done.set()
+
+    proto.events.message_received += on_message
+    proto.enable()
+    deadline = time.monotonic() + 20
+    while True:
+        try:
+            sock = socket.create_connection(("127.0.0.1", port), timeout=2)
+            break
+        except OSError:
+            if time.monotonic() > deadline:
+                raise
+            time.sleep(0.01)
+    sock.sendall(frame_of(1, 0x71))
+    sock.settimeout(20)
+    obs = {"selected": len(sock.recv(100)) == 14}
+    sock.sendall(frame_of(0, 0x72, 1, 1, True))
+    obs["disable_returned"] = done.wait(8.0)
+    obs["not_connected"] = proto.connection_state.current.value == 0
+    sock.close()
+    return obs
+
+
 def disable_while_connect_succeeds_round():
     """The same moment on an ACTIVE endpoint: nobody listens, the connect thread retries; disable() sees the thread alive, the peer
     starts listening, the next attempt succeeds and the thread ends, then disable() asks it to stop.  disable() must return."""
@@ -676,6 +711,14 @@ def run(tier, replay=None):
                               "stream_hex": [f.hex() for f in st], **obs}, True, tag="tcp")
             break
     common.report_wedged(report, twedged, proof)
+    # last, because its two threads stay behind (one of them spinning) until the process ends
+    cb_obs = common.guarded(disable_from_callback_round, "disable() called from the message_received callback", awedged, 60.0)
+    if cb_obs is not None and not cb_obs.get("disable_returned"):
+        known9 = {e["id"]: e for e in common.known_findings("C09") if e.get("status") == "open"}
+        if "C09-disable-from-callback" in known9 and cb_obs.get("selected") and cb_obs.get("not_connected"):
+            report.known(f"C09-disable-from-callback: {known9['C09-disable-from-callback']['text']}")
+        else:
+            report.violation({"kind": "counterexample", "what": "disable() called from the message_received callback did not return / the endpoint did not reach NOT CONNECTED", **cb_obs}, True, tag="cbdisable")
     if not report.violations and queue_model_bad:
         i, m = queue_model_bad[0]
         report.violation({"kind": "broken-correspondence", "obligation": "Model/SendQueue.v (with Gen/SendQueue.v) no longer behaves like HsmsProtocol._process_send_queue", **qraws[i], "count": len(queue_model_bad)}, False, tag="queuemodel")
@@ -704,6 +747,7 @@ def run(tier, replay=None):
     cov["disable_while_peer_connects"] = race_obs
     cov["disable_while_connect_succeeds"] = race2_obs
     cov["disable_races_peer_close"] = race3_obs
+    cov["disable_from_callback"] = cb_obs
     cov["tcp_rounds"] = {"count": len(tcp_obs), "max_disable_seconds": max([o.get("disable_seconds", 0) for o in tcp_obs] + [o.get("final_disable_seconds", 0) for o in tcp_obs] + [0])}
     cov["distribution"] = {"streams": dict(Counter(c[0] for c in cases)), "ended_by": dict(Counter(c[4] for c in cases)), "selected": dict(Counter(str(c[3]) for c in cases))}
     cov["samples"] = [f"stream {c[0]} cut {c[2]} selected={c[3]} {c[4]}" for c in cases[:: max(1, len(cases) // 6)][:6]]
